@@ -3,6 +3,11 @@
 
   reuse   {'src', 'layer': j}      calls the module of node j (a conv1d / conv2d / linear node) on v[src]
 
+and with a PARTIAL flatten that turns a 2-D feature map into a 1-D one (the rest of the network is 1-D):
+
+  flatten12 {'src', 'form': 'method' | 'kw' | 'fn'}     (N,C,H,W) -> (N,C*H,W):
+            x.flatten(1, 2) | torch.flatten(x, start_dim=1, end_dim=2) | torch.flatten(x, 1, 2)
+
 `build` / `shapes` / `describe` accept the extended node list (everything else is delegated to gen_arch).
 """
 import copy
@@ -10,13 +15,17 @@ from . import gen_arch as ga
 
 
 def _plain(spec):
-    """the same node list with every reuse node replaced by a copy of the node it re-invokes (for shapes)"""
+    """the same node list in gen_arch's vocabulary (for shapes / topology predicates): a reuse node becomes a copy of
+    the node it re-invokes, a partial flatten becomes a pseudo input of the flattened shape"""
     nodes = []
     for nd in spec['nodes']:
         if nd['k'] == 'reuse':
             c = dict(spec['nodes'][nd['layer']])
             c['src'] = nd['src']
             nodes.append(c)
+        elif nd['k'] == 'flatten12':
+            sh = ga.shapes({'nodes': nodes})[nd['src']]
+            nodes.append({'k': 'in', 'shape': [sh[0] * sh[1], sh[2]], 'flatten12_of': nd['src'], 'mult': sh[1]})
         else:
             nodes.append(nd)
     return {'nodes': nodes}
@@ -60,6 +69,13 @@ def build(spec, seed=0):
                     v.append(torch.flatten(v[nd['src']], 1))
                 elif k == 'reuse':
                     v.append(self.layers['n%d' % nd['layer']](v[nd['src']]))
+                elif k == 'flatten12':
+                    if nd['form'] == 'method':
+                        v.append(v[nd['src']].flatten(1, 2))
+                    elif nd['form'] == 'kw':
+                        v.append(torch.flatten(v[nd['src']], start_dim=1, end_dim=2))
+                    else:
+                        v.append(torch.flatten(v[nd['src']], 1, 2))
                 else:
                     v.append(self.layers['n%d' % i](v[nd['src']]))
             return v[spec['out'][0]]
@@ -110,6 +126,13 @@ class G2(ga.G):
             return self.add(k='cat', src=[ga_, gb_], dim=1)
         return self.add(k='add', src=[a, b])
 
+    def partial_flatten(self, cur):
+        """(C,H,W) -> (C*H, W) followed by a (causally padded) Conv1d; from here on the network is 1-D"""
+        self.prod.append('partial-flatten')
+        cur = self.add(k='flatten12', src=cur, form=self.rng.choice(['method', 'kw', 'fn']))
+        self.dim = 1
+        return self.act(self.bn(self.conv(cur, stride_ok=False), 0.3))
+
     def twice_linear(self, cur):
         """head: two linear heads sharing one hidden Linear:  L(f) + L(relu(f))"""
         rng = self.rng
@@ -122,7 +145,7 @@ class G2(ga.G):
         return self.add(k='add', src=[self.act(l), b]) if rng.random() < 0.6 else self.add(k='cat', src=[l, b], dim=1)
 
 
-def gen(rng, dim=None, depth=None, p_twice=0.35, **opts):
+def gen(rng, dim=None, depth=None, p_twice=0.35, p_pflat=0.0, **opts):
     """gen_arch.gen with the extra production (probability p_twice per network, at a random body position)"""
     dim = dim or rng.choice([1, 2])
     g = G2(rng, dim, opts)
@@ -141,13 +164,18 @@ def gen(rng, dim=None, depth=None, p_twice=0.35, **opts):
     cur = g.act(g.bn(g.conv(cur)))
     nb = depth if depth is not None else rng.randint(1, 4)
     tw = rng.randrange(nb) if rng.random() < p_twice else -1
+    pf = rng.randrange(nb + 1) if (dim == 2 and rng.random() < p_pflat) else -1
     for b in range(nb):
+        if b == pf:
+            cur = g.partial_flatten(cur)
         cur = g.twice(cur) if b == tw else g.block(cur)
+    if pf == nb:
+        cur = g.partial_flatten(cur)
     if opts.get('conv_head') and rng.random() < 0.3:
         cur = g.conv(cur, cout=rng.randint(2, 3), stride_ok=False)
         g.prod.append('head-conv')
     elif rng.random() < 0.15:
-        cur = g.add(k='gap%dd' % dim, src=cur)
+        cur = g.add(k='gap%dd' % g.dim, src=cur)
         cur = g.add(k='flatten', src=cur)
         cur = g.twice_linear(cur)
         cur = g.add(k='linear', src=cur, cin=g.sh(cur)[0], cout=rng.randint(2, 4), bias=rng.random() < 0.8)
